@@ -24,3 +24,9 @@ def format_number(n, n_type):
         s = ' ' + s
 
     return s
+
+
+def parse_float(s):
+    """Convert a string to float, accepting the exponent letters QB
+    writes (format_number writes D for doubles) besides E."""
+    return float(s.replace('d', 'e').replace('D', 'E'))
